@@ -218,3 +218,16 @@ def validate_model(prog, params):
 
 def _order_total(rows):
     return len({tuple(sorted(r.items())) for r in rows}) == len(rows)
+
+
+def determinate(prog, bind):
+    """The program has a reference result (DESIGN 2.4): no slice acts on an order SQL does not define."""
+    from .prog import sem_seq
+    from .symx import Skip
+
+    env = concrete_env(prog, {k: 0 for k in bind})
+    try:
+        sem_seq(prog, env)
+    except Skip:
+        return False
+    return True
